@@ -1,6 +1,6 @@
 (** Proofs about [PV.Metadata.ValueOwner] (property C09), part 3: what one accepted operation does to
     every scope token ([trans]: untouched, moved with a justification, minted, burnt), for each of
-    the eighteen operations; the invariant over all histories. *)
+    the twenty-three operations; the invariant over all histories. *)
 From Coq Require Import ZArith NArith List Bool Lia.
 From PV Require Import Metadata.ValueOwner Proofs.ValueOwnerProofs Proofs.ValueOwnerProofs2.
 Import ListNotations.
@@ -484,6 +484,11 @@ Proof.
   - intros [= <-]. apply quiet_good; [exact HI|reflexivity..].
   - apply step_accept_spec; exact HI.
   - destruct (is_nil froms); [discriminate|]. intros [= <-]. apply quiet_good; [exact HI|reflexivity..].
+  - discriminate.
+  - discriminate.
+  - discriminate.
+  - discriminate.
+  - intros [= <-]. apply quiet_good; [exact HI|reflexivity..].
 Qed.
 
 (** ** Histories *)
